@@ -1,5 +1,6 @@
 """C10 - reuse of evaluators, storage and workspaces (structural part):
 no named piece of state survives a reuse boundary."""
+import re
 from .. import ast as A
 from .. import renderhandle as RH
 
@@ -22,6 +23,24 @@ def find_call(calls, recv_suffix, method, arg0=None, arg0_contains=None):
         if arg0_contains is not None and (not c["args"] or arg0_contains not in c["args"][0]):
             continue
         out.append(c)
+    return out
+
+
+def row_resizes(calls, container):
+    """`row.resize(..)` calls made once per row of `container` (for row in container.iter_mut() / &mut container /
+    container.iter_mut().for_each(|row| ..)), however the loop is written and whatever the row variable is called"""
+    out = []
+    for c in calls:
+        if c["method"] != "resize" or c["loops"] != 1 or not c["iters"]:
+            continue
+        var, it = c["iters"][-1]
+        src = it
+        for suf in (".iter_mut()", ".iter()"):
+            if src.endswith(suf):
+                src = src[: -len(suf)]
+        src = src.lstrip("&").replace("mut", "", 1) if src.startswith("&mut") else src.lstrip("&")
+        if c["recv"] == var and src == container:
+            out.append(c)
     return out
 
 
@@ -56,12 +75,12 @@ def r1_buffers(rule, root=None):
     calls = A.linear_calls(fn)
     need(rule, fn, calls, "slot rows sized to the tape's slot count", "slots", "resize_with", "tape.slot_count()")
     need(rule, fn, calls, "output rows sized to the tape's output count", "out", "resize_with", "tape.output_count()")
-    for var in ("s", "o"):
-        cs = [c for c in find_call(calls, var, "resize", "size") if c["loops"] == 1]
+    for cont, what in (("self.slots", "slot"), ("self.out", "output")):
+        cs = [c for c in row_resizes(calls, cont) if c["args"] and c["args"][0] == "size" and not c["conds"]]
         if cs:
-            rule.ok("BulkVmEval::resize_slots: every %s row resized to the batch size" % ("slot" if var == "s" else "output"))
+            rule.ok("BulkVmEval::resize_slots: every %s row resized to the batch size" % what)
         else:
-            rule.bad("bulk-resize|%s" % var, "BulkVmEval::resize_slots must resize every %s row to `size`" % ("slot" if var == "s" else "output"), A.where(fn))
+            rule.bad("bulk-resize|%s" % what[0], "BulkVmEval::resize_slots must resize every %s row to `size`" % what, A.where(fn))
     # each interpreter eval resizes before its loop and after the argument check
     for ty, tr, kind in (("VmIntervalEval", "TracingEvaluator", "t"), ("VmPointEval", "TracingEvaluator", "t"), ("VmFloatSliceEval", "BulkEvaluator", "b"), ("VmGradSliceEval", "BulkEvaluator", "b")):
         fn = A.find_fn(VM, "eval", self_ty=ty, trait=tr, root=root)
@@ -103,7 +122,7 @@ def r1_buffers(rule, root=None):
         rule.lost("the three native calls in JitBulkEval::eval (found %d)" % len(native))
         return
     need(rule, fn, calls, "output list sized to the tape's output count on every call", "self.out", "resize_with", "tape.output_count()", before=native[0])
-    cs = [c for c in find_call(calls, "o", "resize", arg0_contains="n.max(T::SIMD_SIZE)") if c["loops"] == 1 and not c["conds"]]
+    cs = [c for c in row_resizes(calls, "self.out") if c["args"] and "n.max(T::SIMD_SIZE)" in c["args"][0] and not c["conds"]]
     if cs and cs[0]["i"] < native[0]["i"]:
         rule.ok("every output row resized to max(n, SIMD_SIZE) before its pointer is taken")
     else:
@@ -184,10 +203,16 @@ def r2_resets(rule, root=None):
     c = need(rule, fn, calls, "the workspace is reset for this tape's length and takes the recycled RegTape", "workspace", "reset", "self.ssa.tape.len()", before=first)
     if c is not None and (len(c["args"]) != 2 or c["args"][1] != "tape.asm"):
         rule.bad("simplify|ws-args", "workspace.reset must receive the recycled `tape.asm`", A.where(fn, c["node"]))
-    t = A.ftxt(fn["body"])
-    if "letmutops_out=tape.ssa.tape;" in t:
-        rule.ok("simplify refills the recycled (and reset) op list")
-    else:
+    from .. import simplify as SIMP
+
+    try:
+        ops = SIMP.ops_out_name(fn)
+        pushes = [c for c in A.find(fn["body"], "MethodCall") if c["method"] == "push" and A.ident(A.strip(c["recv"])) == ops]
+        if pushes:
+            rule.ok("simplify refills the recycled (and reset) op list")
+        else:
+            rule.bad("simplify|ops_out", "the rebuilt ops must be pushed onto the recycled tape's (reset) op list", A.where(fn))
+    except A.AnchorLost:
         rule.bad("simplify|ops_out", "ops_out must be the recycled tape's (reset) op list", A.where(fn))
 
 
@@ -227,10 +252,36 @@ def r3_mmap(rule, root=None):
         rule.bad("mmapwriter|len", "push must advance len by exactly one", A.where(fn))
     fn = A.find_fn(MMAP, "double_capacity", self_ty="MmapWriter", root=root)
     t = A.ftxt(fn["body"])
-    if "Mmap::new((self.mmap.capacity*2))" in t and "std::ptr::copy_nonoverlapping(self.mmap.ptr,next.ptr,self.len())" in t and "std::mem::swap(&mutself.mmap,&mutnext)" in t:
+    why = None
+    nxt = None
+    for st in A.find(fn["body"], "Let"):
+        it = A.unparse(st.get("init") or {}).replace(" ", "")
+        if "Mmap::new(" in it:
+            m = re.search(r"Mmap::new\(\(?(self\.mmap\.capacity(?:\(\))?\*2|2\*self\.mmap\.capacity(?:\(\))?)\)?\)", it)
+            if not m:
+                why = "the new mapping is `%s`, not twice the old capacity" % it[:50]
+            nxt = A.binding_name(st["pat"])
+    calls = A.linear_calls(fn)
+    cp = [c for c in calls if c["method"].endswith("copy_nonoverlapping")]
+    inst = None
+    for c in calls:
+        if c["method"].endswith("mem::swap") and sorted(a.replace("&mut", "") for a in c["args"]) == sorted(["self.mmap", nxt or "?"]):
+            inst = c["node"]
+    for a in A.find(fn["body"], "Assign"):
+        if A.unparse(a["left"]).replace(" ", "") == "self.mmap" and A.ident(A.strip(a["right"])) == nxt:
+            inst = a
+    if nxt is None:
+        why = why or "no `let next = Mmap::new(..)`"
+    elif len(cp) != 1 or cp[0]["args"][:2] != ["self.mmap.ptr", "%s.ptr" % nxt] or cp[0]["args"][2] not in ("self.len()", "self.len"):
+        why = why or "the written bytes must be copied with copy_nonoverlapping(self.mmap.ptr, %s.ptr, self.len()), found %s" % (nxt, [c["args"] for c in cp])
+    elif inst is None:
+        why = why or "the new mapping is never installed in self.mmap"
+    elif inst.get("ln", 0) < cp[0]["node"].get("ln", 0):
+        why = why or "the new mapping is installed before the old bytes are copied"
+    if why is None:
         rule.ok("double_capacity copies the written bytes into a mapping twice the size and swaps it in", file=MMAP, line=fn["ln"])
     else:
-        rule.bad("mmapwriter|grow", "double_capacity must allocate a larger mapping, copy the `len()` written bytes from the old one and swap", A.where(fn))
+        rule.bad("mmapwriter|grow", "double_capacity must allocate a larger mapping, copy the `len()` written bytes from the old one and swap (%s)" % why, A.where(fn))
 
 
 def r4_pointer_lists(rule, root=None):
